@@ -114,7 +114,7 @@ Proof.
   assert (Hc : forall pl, In pl (map (Conn.chunk WO HO) rows) -> length pl = HO /\ forall r, In r pl -> length r = WO).
   { intros pl Hin. apply in_map_iff in Hin. destruct Hin as (row & <- & Hrow). split; [apply ConnProofs.chunk_length|].
     intros r Hr. apply (chunk_rows_In WO HO row r); [rewrite (Hrows row Hrow); lia|exact Hr]. }
-  unfold planes. destruct b as [bv|]; [|exact Hc]. intros Hin.
+  unfold planes. destruct b as [bv|]; [|apply Hc]. intros Hin.
   apply In_map2 in Hin. destruct Hin as (pl & bf & Hpl & _ & ->). destruct (Hc pl Hpl) as (H1 & H2).
   rewrite map_length. split; [exact H1|]. intros r Hr. apply in_map_iff in Hr. destruct Hr as (r0 & <- & Hr0).
   rewrite map_length. apply H2. exact Hr0.
@@ -127,17 +127,23 @@ Proof.
   { rewrite (ConnProofs.nth_map_lt _ _ _ []) by exact Hf. apply ConnProofs.chunk_nth_nth; assumption. }
   unfold planes. destruct b as [bv|]; cbn [ConnSpec.bias_at].
   - pose proof (Hb bv eq_refl) as Hlb.
-    rewrite (ConnProofs.map2_nth _ _ _ _ [] 0) by (rewrite ?map_length; lia).
+    rewrite (ConnProofs.map2_nth _ _ _ _ [] 0) by (rewrite ?map_length; change (T RN) with R in *; lia).
     assert (Hlp : length (nth f (map (Conn.chunk WO HO) rows) []) = HO).
     { rewrite (ConnProofs.nth_map_lt _ _ _ []) by exact Hf. apply ConnProofs.chunk_length. }
-    rewrite (ConnProofs.nth_map_lt _ _ _ []) by lia.
+    rewrite (ConnProofs.nth_map_lt _ _ _ []) by (change (T RN) with R in *; lia).
     assert (Hlrow : length (nth oh (nth f (map (Conn.chunk WO HO) rows) []) []) = WO).
     { rewrite (ConnProofs.nth_map_lt _ _ _ []) by exact Hf. apply ConnProofs.chunk_row_length; [exact Hoh|].
       rewrite (Hrows _ (nth_In _ _ Hf)). lia. }
-    rewrite (ConnProofs.nth_map_lt _ _ _ 0) by lia. rewrite Hcore. rn_simpl. reflexivity.
+    rewrite (ConnProofs.nth_map_lt _ _ _ 0) by (change (T RN) with R in *; lia). rn_simpl. f_equal. exact Hcore.
   - rewrite Hcore. lra.
 Qed.
 End Planes.
+
+Lemma matmul_rows (A M : list (list R)) ncols r : In r (Conn.matmul RN A M ncols) -> length r = ncols.
+Proof.
+  intros Hr. unfold Conn.matmul in Hr. apply in_map_iff in Hr. destruct Hr as (ar & <- & _).
+  rewrite map_length, seq_length. reflexivity.
+Qed.
 
 (* ------------------------------------------------------------------ the two contractions of Conv2D.forward *)
 Section ConvMaps.
@@ -165,13 +171,12 @@ Proof.
   - f_equal. rewrite ConnProofs.matmul_nth by (try exact Hf; nia).
     rewrite (ConnProofs.dot_Rsum _ _ NN).
     + apply ConnProofs.Rsum_ext. intros n Hn. unfold Conn.column.
-      rewrite (ConnProofs.nth_map_lt _ _ _ []) by (rewrite Hcur; exact Hn). reflexivity.
+      rewrite (ConnProofs.nth_map_lt _ _ _ []) by (change (T RN) with R in *; lia). reflexivity.
     + apply HK. apply nth_In. exact Hf.
     + unfold Conn.column. rewrite map_length. exact Hcur.
-  - intros r Hr. apply (In_nth _ _ []) in Hr. destruct Hr as (i & Hi & <-). rewrite Hlm in Hi.
-    apply ConnProofs.matmul_row_length. exact Hi.
-  - rewrite Hlm. exact Hb.
-  - rewrite Hlm. exact Hf.
+  - intros r Hr. apply (matmul_rows _ _ _ _ Hr).
+  - intros bv Ebv. etransitivity; [exact (Hb bv Ebv)|symmetry; exact Hlm].
+  - change (T RN) with R in *. lia.
 Qed.
 Lemma conv_map_shape' (cur : list (list R)) :
   length (Conn.conv_map RN g w b cur) = length K /\
@@ -180,11 +185,11 @@ Proof.
   rewrite conv_map_planes.
   assert (Hlm : length (Conn.matmul RN K cur (HO * WO)) = length K) by (unfold Conn.matmul; apply map_length).
   assert (Hrows : forall r, In r (Conn.matmul RN K cur (HO * WO)) -> length r = (HO * WO)%nat).
-  { intros r Hr. apply (In_nth _ _ []) in Hr. destruct Hr as (i & Hi & <-). rewrite Hlm in Hi.
-    apply ConnProofs.matmul_row_length. exact Hi. }
-  assert (Hb' : bias_ok (length (Conn.matmul RN K cur (HO * WO))) b) by (rewrite Hlm; exact Hb).
+  { intros r Hr. apply (matmul_rows _ _ _ _ Hr). }
+  assert (Hb' : bias_ok (length (Conn.matmul RN K cur (HO * WO))) b).
+  { intros bv Ebv. etransitivity; [exact (Hb bv Ebv)|symmetry; exact Hlm]. }
   split.
-  - rewrite (planes_length HO WO _ b Hb'). exact Hlm.
+  - etransitivity; [exact (planes_length HO WO _ b Hrows Hb')|exact Hlm].
   - intros x Hx. apply (planes_shape HO WO _ b Hrows Hb' x Hx).
 Qed.
 
@@ -221,17 +226,18 @@ Proof.
     + apply HK. apply nth_In. exact Hf.
     + rewrite map_length, seq_length. reflexivity.
   - apply delayed_rows_row.
-  - rewrite delayed_rows_length. exact Hb.
-  - rewrite delayed_rows_length. exact Hf.
+  - intros bv Ebv. etransitivity; [exact (Hb bv Ebv)|symmetry; apply delayed_rows_length].
+  - pose proof (delayed_rows_length sc). change (T RN) with R in *. lia.
 Qed.
 Lemma conv_delayed_map_shape sc :
   length (conv_delayed_map RN g w b NN sc) = length K /\
   forall x, In x (conv_delayed_map RN g w b NN sc) -> length x = HO /\ forall r, In r x -> length r = WO.
 Proof.
   rewrite conv_delayed_map_planes.
-  assert (Hb' : bias_ok (length (delayed_rows sc)) b) by (rewrite delayed_rows_length; exact Hb).
+  assert (Hb' : bias_ok (length (delayed_rows sc)) b).
+  { intros bv Ebv. etransitivity; [exact (Hb bv Ebv)|symmetry; apply delayed_rows_length]. }
   split.
-  - rewrite (planes_length HO WO _ b Hb'). apply delayed_rows_length.
+  - etransitivity; [exact (planes_length HO WO _ b (delayed_rows_row sc) Hb')|apply delayed_rows_length].
   - intros x Hx. apply (planes_shape HO WO _ b (delayed_rows_row sc) Hb' x Hx).
 Qed.
 End ConvMaps.
@@ -284,8 +290,10 @@ Proof.
   set (r1 := fun _ : nat => flat_map r2 (seq 0 NN)).
   assert (H1 : forall j, length (r1 j) = (NN * (L * F))%nat) by (intros; unfold r1; apply ConnProofs.flat_map_seq_length; intros; apply H2).
   replace (((b * NN + n) * L + l) * F + f)%nat with (b * (NN * (L * F)) + (n * (L * F) + (l * F + f)))%nat by nia.
-  rewrite (ConnProofs.flat_map_seq_nth r1 (NN * (L * F)) 0 B b _ 0) by (try (intros; apply H1); nia).
-  unfold r1. rewrite (ConnProofs.flat_map_seq_nth r2 (L * F) 0 NN n _ 0) by (try (intros; apply H2); nia).
+  pose proof (ConnProofs.flat_index_lt l f L F Hl Hf) as Ha.
+  pose proof (ConnProofs.flat_index_lt n (l * F + f) NN (L * F) Hn Ha) as Hbb.
+  rewrite (ConnProofs.flat_map_seq_nth r1 (NN * (L * F)) 0 B b _ 0) by (try (intros; apply H1); assumption).
+  unfold r1. rewrite (ConnProofs.flat_map_seq_nth r2 (L * F) 0 NN n _ 0) by (try (intros; apply H2); assumption).
   unfold r2. rewrite (ConnProofs.flat_map_seq_nth (r3 (0 + n)%nat) F 0 L l f 0) by (try (intros; apply H3); lia).
   unfold r3. rewrite ConnProofs.map_seq_nth by exact Hf. reflexivity.
 Qed.
@@ -362,7 +370,9 @@ Proof.
   f_equal. apply ConnProofs.Rsum_ext. intros n Hn. f_equal.
   assert (Hlt : (oh * WO + ow < L)%nat) by (unfold cv_L; nia).
   rewrite nth_nest4 by assumption.
-  assert (He : ((b * NN + n) * L + (oh * WO + ow) < nel (cshape RN c))%nat) by (rewrite Hshape, nel3; nia).
+  assert (He : ((b * NN + n) * L + (oh * WO + ow) < nel (cshape RN c))%nat).
+  { rewrite Hshape, nel3. pose proof (ConnProofs.flat_index_lt b n B NN Hbb Hn) as H1.
+    pose proof (ConnProofs.flat_index_lt (b * NN + n) (oh * WO + ow) (B * NN) L H1 Hlt) as H2. lia. }
   etransitivity; [exact (Hv _ f He Hff)|]. f_equal.
   etransitivity; [exact (conv_selector_nth b n _ f Hbb Hn Hlt Hff)|]. unfold conv_delays. rewrite Hd. reflexivity.
 Qed.
@@ -422,7 +432,9 @@ Proof.
   rewrite Hshape in Hs, Hs'. cbn [app] in Hs, Hs'.
   exists vc, vs. replace (conv_selector RN k) with ([B; NN; L; F], snd (conv_selector RN k)) by reflexivity.
   split; [exact Hs|]. split; [exact Hs'|]. intros b n l f Hbb Hn Hl Hff.
-  assert (He : ((b * NN + n) * L + l < nel (cshape RN c))%nat) by (rewrite Hshape, nel3; nia).
+  assert (He : ((b * NN + n) * L + l < nel (cshape RN c))%nat).
+  { rewrite Hshape, nel3. pose proof (ConnProofs.flat_index_lt b n B NN Hbb Hn) as H1.
+    pose proof (ConnProofs.flat_index_lt (b * NN + n) l (B * NN) L H1 Hl) as H2. lia. }
   assert (Es : nth (((b * NN + n) * L + l) * F + f) (snd (conv_selector RN k)) 0 = mat_at (Conn.flatten_kernel RN d) f n).
   { etransitivity; [exact (conv_selector_nth b n l f Hbb Hn Hl Hff)|]. unfold conv_delays. rewrite Hd. reflexivity. }
   split.
